@@ -1,42 +1,8 @@
-# Per-property run parameters for ./check (engine package, campaign sizes, evidence rule text).
-PROPS = {
-    "C01": dict(
-        engine="p_syntax", quick_checks=200000, thorough_checks=3000000, quick_shards=14, thorough_shards=16,
-        rule="inputs: hostile byte constants (unterminated openers, nest runs up to 20k, BOMs, invalid UTF-8, long keys), every .d2 file / "
-             "txtar section / test-table literal of the repo (also re-encoded as UTF-16LE+BOM), then rapid: raw bytes, syntax-biased runes, "
-             "mutated seeds, grammar text and token-mutated grammar text, each parsed with Parse (UTF16Pos on/off), ParseKey, ParseMapKey, "
-             "ParseValue. non-trivial = Parse produced more than the root node or at least one error; distinct by SHA-256 of the case.",
-        assumptions=["a per-case watchdog of 20 s stands in for 'terminates' (typical cost is microseconds)"],
-    ),
-    "C02": dict(
-        engine="p_syntax", quick_checks=100000, thorough_checks=2000000, quick_shards=14, thorough_shards=16,
-        rule="inputs: snippets, every repo .d2 file/txtar section, hostile constants, then rapid grammar text with multi-byte/astral/tab/CRLF "
-             "splices, token mutations (valid and invalid UTF-8), hostile names; each in UTF-8 and UTF-16 position mode and additionally as "
-             "UTF-16LE+BOM bytes. oracle: independent offset table (line/col/offset per rune boundary), range inside input, start<=end, "
-             "child inside parent, key-segment source re-parses to the same segment. non-trivial = >=5 nodes and (non-ASCII rune or >=1 error).",
-        assumptions=["newline is '\\n' only, as Position documents"],
-    ),
-    "C05": dict(
-        engine="p_syntax", quick_checks=150000, thorough_checks=3000000, quick_shards=14, thorough_shards=16,
-        rule="strings: every plain/hostile/keyword name (keywords in 4 letter cases) as core, then rapid Unicode strings <=24 runes biased to "
-             "syntax-significant runes, keywords, numbers, white space. oracle: Format(RawString(s, key)) -> ParseKey == [s]; "
-             "Format(RawString(s, value)) -> ParseValue is a string/number scalar == s; d2oracle.Set(x, s) recompiles to label s; "
-             "d2oracle.Rename(x, s) recompiles to exactly one object with the returned name. non-trivial = s needs quoting/escaping or is a "
-             "keyword or number spelling.",
-        assumptions=["edits refused with an error are legal outcomes (counted as set_refused / rename_refused)"],
-    ),
-    "C03": dict(
-        engine="p_syntax", quick_checks=100000, thorough_checks=2000000, quick_shards=14, thorough_shards=16,
-        rule="inputs: all repo .d2 files, txtar sections and test-table literals, snippets per construct, then rapid grammar text (comments, block "
-             "strings, boards, imports, globs, substitutions, edge groups, arrays), lightly mutated text and hostile-name pairs; inputs with parse "
-             "errors are rejected and counted. oracle: f1=Format(Parse(x)); Parse(f1) has no errors; Format(Parse(f1))==f1 byte for byte. "
-             "non-trivial = formatting changed the text or the input has >=3 construct kinds.",
-    ),
-    "C43": dict(
-        engine="p_syntax", quick_checks=60000, thorough_checks=1500000, quick_shards=14, thorough_shards=16,
-        rule="byte strings: empty, every single byte, runs and pseudo-random blocks around 256/64Ki, repo .d2 files, hostile constants, then rapid "
-             "raw bytes (<=2KiB quick, <=64KiB thorough), syntax-biased bytes, repeated dictionary words, grammar text. oracle: Decode(Encode(s))==s, "
-             "Encode(s) matches ^[A-Za-z0-9_=-]*$ and survives url.Parse(...).Query().Get. non-trivial = non-empty input.",
-        assumptions=["'=' padding counts as URL-safe inside a query value"],
-    ),
-}
+# Per-property run parameters for ./check: merged from props.d/*.py (one fragment per engine).
+import glob, os
+
+PROPS = {}
+for _f in sorted(glob.glob(os.path.join(os.path.dirname(os.path.abspath(__file__)), "props.d", "*.py"))):
+    _ns = {}
+    exec(compile(open(_f).read(), _f, "exec"), _ns)
+    PROPS.update(_ns.get("PROPS", {}))
